@@ -170,10 +170,11 @@ func exec(t *testing.T, s Script) *vstat.Violation {
 		if forwarded > 1 || (forwarded == 1) == local || local == fromBackend {
 			return vstat.Violf(uaClass+"|not-exactly-one-of-local-or-forwarded", "%s %s UA=%q probe=%v: forwarded %d times, status %d body %q from-backend=%v", r.Method, r.Path, r.UA, s.Probe, forwarded, o.ex.Status, o.ex.Body, fromBackend)
 		}
-		ambiguous := len(r.UA) == 2 && strings.HasPrefix(r.UA[0], lit) != strings.HasPrefix(r.UA[1], lit)
-		if ambiguous {
+		// two field lines: whether one reads the first line (net/http) or the comma-joined list
+		// (RFC 9110), the User-Agent begins with the literal exactly when the first line does
+		if len(r.UA) == 2 && strings.HasPrefix(r.UA[0], lit) != strings.HasPrefix(r.UA[1], lit) {
 			cl = append(cl, "ua-lines-disagree")
-			continue
+			nt = true
 		}
 		wantLocal := s.Probe && len(r.UA) > 0 && strings.HasPrefix(r.UA[0], lit)
 		if wantLocal != local {
